@@ -617,6 +617,55 @@ func (h *harness) checkLE(r *vh.Rng, src []byte, gen string, doDefuse bool) {
 // Directive texts cover file:line, file:line:col, missing/empty/invalid/overflowing numbers, blanks, Windows paths
 // containing ':', and the block form /*line ...*/ (also spanning lines); terminators are every line ending a source can
 // have (LF, CRLF, CR CR LF, lone CR, end of input, blanks before the line end).
+// escapeBoundaries: (escape form \\x \\ooo \\u \\U, exact / too few / too many digits, upper and lower case hex digits) x
+// (every boundary value of the escape rules and its two neighbours: 0, 7F/80, FF/100, 377/400 octal, 7FF/800, the surrogate
+// range D7FF D800 DBFF DC00 DFFF E000 E001, FFFD..FFFF, 10000, 10FFFF 110000, 7FFFFFFF 80000000 FFFFFFFF) x
+// (rune literal, string literal alone / between other characters, raw string, two escapes in one literal, wrong quote escape)
+func escapeBoundaries() [][]byte {
+	seenV := map[uint64]bool{}
+	var vals []uint64
+	for _, b := range []uint64{0, 0x7F, 0x80, 0xFF, 0x100, 0x7FF, 0x800, 0xD7FF, 0xD800, 0xDBFF, 0xDC00, 0xDFFF, 0xE000, 0xE001, 0xFFFD, 0xFFFE, 0xFFFF, 0x10000,
+		0x10FFFF, 0x110000, 0x7FFFFFFF, 0x80000000, 0xFFFFFFFF} {
+		for _, v := range []uint64{b - 1, b, b + 1} {
+			if v <= 0xFFFFFFFF && !seenV[v] {
+				seenV[v] = true
+				vals = append(vals, v)
+			}
+		}
+	}
+	var escs []string
+	add := func(e string) {
+		escs = append(escs, e)
+		if u := strings.ToUpper(e[2:]); u != e[2:] {
+			escs = append(escs, e[:2]+u)
+		}
+	}
+	for _, v := range vals {
+		if v <= 0xFF {
+			add(fmt.Sprintf("\\x%02x", v))
+		}
+		if v <= 0x1FF {
+			add(fmt.Sprintf("\\%03o", v))
+		}
+		if v <= 0xFFFF {
+			add(fmt.Sprintf("\\u%04x", v))
+			add(fmt.Sprintf("\\u%03x", v>>4)) // too few digits
+			add(fmt.Sprintf("\\u%04x0", v))   // a digit after the escape
+			add(fmt.Sprintf("\\U%04x", v))    // \\U with 4 digits
+		}
+		add(fmt.Sprintf("\\U%08x", v))
+		add(fmt.Sprintf("\\U%07x", v>>4))
+	}
+	escs = append(escs, "\\xg0", "\\x0g", "\\u00g0", "\\U0000g000", "\\8", "\\08", "\\400", "\\777", "\\'", "\\\"", "\\`", "\\q", "\\", "\\u", "\\U", "\\x")
+	var out [][]byte
+	for _, e := range escs {
+		for _, f := range []string{"'%s'", "\"%s\"", "x := \"a%sb\" + y\n", "`%s`", "'%s", "\"%s", "f('%s', \"%[1]s%[1]s\")\n", "'a%s'", "\"%s\n\""} {
+			out = append(out, []byte(fmt.Sprintf(f, e)))
+		}
+	}
+	return out
+}
+
 func lineDirectives() [][]byte {
 	texts := []string{"line f.go:10", "line f.go:10:5", "line :7", "line f.go:0", "line f.go:10:0", "line f.go:x", "line  f.go :12", "line f.go:10 ", "line f.go: 10",
 		"line", "line ", "line f.go", "line f.go:10:", "line C:\\d\\x.go:5", "line C:\\d\\x.go:5:6", "line f.go:1073741824", "line f.go:5:1073741824", "line f.go:1073741823", "line\tf.go:3", "Line f.go:3", " line f.go:3",
@@ -784,6 +833,7 @@ func main() {
 		"token soups (valid tokens: identifiers incl. non-ASCII, all keywords, all operators, number literals built from prefix/digits/_/./exponent/i pieces, strings/runes/raw strings, comments incl. //line directives, random separators, optional BOM), with and without invalid pieces (NUL, invalid UTF-8, BOM inside, unterminated literals/comments, bad escapes, '#', '~', macro); "+
 		"the bounded product (context before) x (//line and /*line*/ directive texts: file:line[:col], empty/invalid/overflowing numbers, blanks, Windows paths) x (comment terminator: LF, CRLF, CR CR LF, lone CR, end of input, blank before the line end) x (following tokens); "+
 		"every seed, soup, number and mutated chunk also in its CRLF form (every LF -> CR LF) and a third of them in a mixed form (LF -> CRLF / CR CR LF / lone CR at random, stray CRs inserted), every third real file in CRLF form; "+
+		"the bounded product (escape form \\x, octal, \\u, \\U with exact / too few / too many digits, both hex cases) x (every boundary value of the escape rules with both neighbours: 0, 7F/80, FF/100, 7FF/800, D7FF D800 DBFF DC00 DFFF E000 E001, FFFD-FFFF, 10000, 10FFFF 110000, 7FFFFFFF 80000000 FFFFFFFF) x (rune / string / raw string literal, alone, between other characters, unterminated, doubled, newline inside); "+
 		"byte-level and token-level mutations of chunks of real sources; whole files of $GOROOT/src and the gomacro tree (quick: 300-file sample; thorough: all). Every input is scanned in both modes (comments skipped / ScanComments). "+
 		"Known-finding class avoided (C23-1/2/3, DESIGN 7 #14): a run of comments directly followed by an automatic semicolon in the go1.23 stream [in skip mode except when that comment ends the input = the property's allowance] - generated inputs are defused by inserting an explicit ';' in front of the run; bounded-exhaustive inputs of the class are only checked for error equivalence. "+
 		"Oracle: extension-free (std stream has no '~' token, no ILLEGAL '#', no identifier macro) => fork errors>0 iff std errors>0, and if std has no error: identical (token, literal, offset, line, column, //line-adjusted position) sequences and line tables. "+
@@ -875,6 +925,12 @@ func main() {
 		h.check(d, "line-directive", true)
 	}
 	rep.Extra["line_directive_inputs"] = len(lds)
+	// 2c. escape sequences at and around every code point boundary (bounded product)
+	esc := escapeBoundaries()
+	for _, d := range esc {
+		h.check(d, "escape-boundary", true)
+	}
+	rep.Extra["escape_boundary_inputs"] = len(esc)
 
 	// 3. soups, numbers
 	nSoup, nNum, nMut, nFiles := 5000, 2500, 5000, 300
